@@ -42,6 +42,11 @@ pub enum RngMode {
     LowEntropy,
     Counter,
     BitWalk,
+    /// after a few uniform words the generator serves 0 for ever (as `StepRng::new(0, 0)` does).
+    /// Every integer `gen_range` of rand 0.8 accepts the word 0 whatever its range (0 * range = 0
+    /// is inside any acceptance zone), so rand's own draws all terminate on this stream and the
+    /// sampler must return: the one *permanently* stuck stream with a sound liveness oracle.
+    ZeroForever,
 }
 
 #[derive(Clone, Copy, PartialEq, Eq, Debug)]
@@ -58,6 +63,9 @@ pub enum Entry {
     Arr4,
     /// `rng.gen::<(P, P)>()`
     Pair,
+    /// through a zero-sized generator type (like `rand::rngs::OsRng`): a unit struct that forwards
+    /// to the simulated generator
+    Zst,
 }
 
 impl Entry {
@@ -69,6 +77,7 @@ impl Entry {
             Entry::Dyn => "dyn",
             Entry::Arr4 => "arr4",
             Entry::Pair => "pair",
+            Entry::Zst => "zst",
         }
     }
     pub fn parse(s: &str) -> Option<Entry> {
@@ -79,6 +88,7 @@ impl Entry {
             "dyn" => Some(Entry::Dyn),
             "arr4" => Some(Entry::Arr4),
             "pair" => Some(Entry::Pair),
+            "zst" => Some(Entry::Zst),
             _ => None,
         }
     }
@@ -171,6 +181,9 @@ pub struct SimRng<'a> {
     counter: u64,
     counter_step: u64,
     walk_pos: u32,
+    zero_after: u32,
+    total_draws: u32,
+    pub long_bursts: u64,
     pub served: Vec<(Method, u64)>,
     /// draws since the current sample started / since the last burst ended
     draws_since_calm: u32,
@@ -209,6 +222,9 @@ impl<'a> SimRng<'a> {
             counter,
             counter_step,
             walk_pos: 0,
+            zero_after: 0,
+            total_draws: 0,
+            long_bursts: 0,
             served: Vec::new(),
             draws_since_calm: 0,
             cap_factor: 1,
@@ -255,6 +271,7 @@ impl<'a> SimRng<'a> {
             return self.burst_word;
         }
         let uniform = self.rng.next();
+        self.total_draws = self.total_draws.wrapping_add(1);
         let top = |rng: &mut Prng, k: u32, ones: bool| -> u64 {
             // top k bits (of `bits`) all ones / all zeros, random below
             let r = rng.next();
@@ -283,6 +300,12 @@ impl<'a> SimRng<'a> {
                         self.burst_in_later += 1;
                     }
                     self.burst_left = self.rng.range(1, MAX_BURST as u64) as u32 - 1;
+                    // rarely a *long* (still bounded) burst: a generator stuck for up to 2^17 draws.
+                    // Draws inside a burst are not counted against the liveness cap.
+                    if self.rng.chance(1, 48) {
+                        self.burst_left = 1u32 << self.rng.range(10, 17);
+                        self.long_bursts += 1;
+                    }
                     self.burst_word = match self.rng.below(6) {
                         0 => 0,
                         1 => u64::MAX,
@@ -331,6 +354,16 @@ impl<'a> SimRng<'a> {
                         self.wraps += 1;
                     }
                     before
+                }
+            }
+            RngMode::ZeroForever => {
+                if self.zero_after == 0 {
+                    self.zero_after = 1 + self.rng.below(6) as u32;
+                }
+                if self.total_draws > self.zero_after {
+                    0
+                } else {
+                    uniform
                 }
             }
             RngMode::BitWalk => {
@@ -436,6 +469,39 @@ impl RngCore for ScriptedRng {
 // Calling the real sampler
 // ---------------------------------------------------------------------------------------
 
+thread_local! {
+    /// where the zero-sized generator forwards to (a pointer to a `&mut dyn RngCore` on the stack
+    /// of the `sample_call` frame that is currently running on this thread)
+    static ZST_TARGET: std::cell::Cell<*mut ()> = std::cell::Cell::new(std::ptr::null_mut());
+}
+
+/// A generator type with no fields, as `rand::rngs::OsRng` is.
+pub struct ZstRng;
+
+fn zst_target<T>(f: impl FnOnce(&mut dyn RngCore) -> T) -> T {
+    let p = ZST_TARGET.with(|t| t.get());
+    assert!(!p.is_null(), "harness: ZstRng used outside sample_call");
+    // SAFETY: the pointer was set by the `sample_call` frame that is calling us (same thread) and
+    // points at a live `&mut dyn RngCore` in that frame; it is cleared/overwritten before reuse.
+    let r: &mut &mut dyn RngCore = unsafe { &mut *(p as *mut &mut dyn RngCore) };
+    f(&mut **r)
+}
+
+impl RngCore for ZstRng {
+    fn next_u32(&mut self) -> u32 {
+        zst_target(|r| r.next_u32())
+    }
+    fn next_u64(&mut self) -> u64 {
+        zst_target(|r| r.next_u64())
+    }
+    fn fill_bytes(&mut self, dest: &mut [u8]) {
+        zst_target(|r| r.fill_bytes(dest))
+    }
+    fn try_fill_bytes(&mut self, dest: &mut [u8]) -> Result<(), rand::Error> {
+        zst_target(|r| r.try_fill_bytes(dest))
+    }
+}
+
 /// One call into the crate's sampler through `entry`; pushes every posit it produced.
 /// Returns the first one (the only one for the single-sample entries).
 fn sample_call<R: RngCore>(qt: QT, entry: Entry, rng: &mut R, out: &mut Vec<u32>) {
@@ -465,6 +531,14 @@ fn sample_call<R: RngCore>(qt: QT, entry: Entry, rng: &mut R, out: &mut Vec<u32>
                     let (a, b): ($P, $P) = rng.gen();
                     out.push(a.to_bits() as u32);
                     out.push(b.to_bits() as u32);
+                }
+                Entry::Zst => {
+                    let mut target: &mut dyn RngCore = rng;
+                    ZST_TARGET.with(|t| t.set(&mut target as *mut &mut dyn RngCore as *mut ()));
+                    let mut z = ZstRng;
+                    let p: $P = z.gen();
+                    ZST_TARGET.with(|t| t.set(std::ptr::null_mut()));
+                    out.push(p.to_bits() as u32);
                 }
             }
         }};
@@ -676,7 +750,8 @@ pub fn generate_and_run_traced(seed: u64, run: u64, st: &mut Stats, outcomes: &[
         RngMode::LowEntropy,
         RngMode::Counter,
         RngMode::BitWalk,
-    ][rng.weighted(&[3, 3, 4, 3, 2, 2, 3])];
+        RngMode::ZeroForever,
+    ][rng.weighted(&[6, 6, 8, 6, 4, 4, 6, 1])];
     st.hit(match mode {
         RngMode::Uniform => Pr::rng_mode_uniform,
         RngMode::StuckBurst => Pr::rng_mode_stuck,
@@ -685,18 +760,20 @@ pub fn generate_and_run_traced(seed: u64, run: u64, st: &mut Stats, outcomes: &[
         RngMode::LowEntropy => Pr::rng_mode_lowent,
         RngMode::Counter => Pr::rng_mode_counter,
         RngMode::BitWalk => Pr::rng_mode_bitwalk,
+        RngMode::ZeroForever => Pr::rng_mode_zero,
     });
     let skew = rng.chance(1, 2);
     if skew {
         st.hit(Pr::rng_skew);
     }
-    let entry = [Entry::Gen, Entry::Sample, Entry::Iter, Entry::Dyn, Entry::Arr4, Entry::Pair][rng.weighted(&[8, 6, 4, 4, 1, 1])];
+    let entry = [Entry::Gen, Entry::Sample, Entry::Iter, Entry::Dyn, Entry::Arr4, Entry::Pair, Entry::Zst][rng.weighted(&[8, 6, 4, 4, 1, 1, 2])];
     st.hit(match entry {
         Entry::Gen => Pr::rng_entry_gen,
         Entry::Sample => Pr::rng_entry_sample,
         Entry::Iter => Pr::rng_entry_iter,
         Entry::Dyn => Pr::rng_entry_dyn,
         Entry::Arr4 | Entry::Pair => Pr::rng_entry_multi,
+        Entry::Zst => Pr::rng_entry_zst,
     });
     if let Some(t) = trace.as_mut() {
         let _ = writeln!(t, "type {}\nentry {}\nnsamples {}", qt.pname(), entry.name(), nsamples);
@@ -860,6 +937,7 @@ pub fn generate_and_run_traced(seed: u64, run: u64, st: &mut Stats, outcomes: &[
     st.add(Pr::rng_words, sim.served.len() as u64);
     st.steps += sim.served.len() as u64;
     st.add(Pr::rng_burst_fired, sim.bursts_fired);
+    st.add(Pr::rng_long_burst, sim.long_bursts);
     st.add(Pr::rng_edge_fired, sim.edge_fired);
     st.add(Pr::rng_lowent_fired, sim.lowent_fired);
     st.add(Pr::rng_counter_wrap, sim.wraps);
@@ -913,17 +991,27 @@ pub fn minimise(gen: &RGenerated, target: RClause) -> (RCase, RFailure) {
     if target == RClause::NoProgress {
         return (best, bestf);
     }
-    // 2. drop words
-    let mut i = 0;
-    while i < best.words.len() {
-        let mut c = best.clone();
-        c.words.remove(i);
-        if let Some(f) = fails(&c) {
-            best = c;
-            bestf = f;
-        } else {
-            i += 1;
+    // 2. drop words: halving chunks first (long bursts), then single words; bounded effort
+    let mut evals = 0u32;
+    let mut chunk = (best.words.len() / 2).max(1);
+    loop {
+        let mut i = 0;
+        while i < best.words.len() && evals < 4000 {
+            let end = (i + chunk).min(best.words.len());
+            let mut c = best.clone();
+            c.words.drain(i..end);
+            evals += 1;
+            if let Some(f) = fails(&c) {
+                best = c;
+                bestf = f;
+            } else {
+                i += chunk;
+            }
         }
+        if chunk == 1 || evals >= 4000 {
+            break;
+        }
+        chunk = (chunk / 2).max(1);
     }
     // trailing unused words
     {
@@ -953,8 +1041,8 @@ pub fn minimise(gen: &RGenerated, target: RClause) -> (RCase, RFailure) {
             }
         }
     }
-    // 4. clear bits
-    for wi in 0..best.words.len() {
+    // 4. clear bits (short scripts only)
+    for wi in 0..best.words.len().min(64) {
         let mut c = best.clone();
         c.words[wi].1 = 0;
         if let Some(f) = fails(&c) {
